@@ -150,15 +150,20 @@ class DirectionalSobolevSpace(SobolevSpace):
         if isinstance(other, DirectionalSobolevSpace):
             if self._spatial_indices != other._spatial_indices:
                 return False
-            return any(self._orders[i] > other._orders[i] for i in self._spatial_indices)
+            # Proper subspace: at least as smooth in every direction, smoother in one
+            return all(
+                self._orders[i] >= other._orders[i] for i in self._spatial_indices
+            ) and any(self._orders[i] > other._orders[i] for i in self._spatial_indices)
 
         if other in [HDiv, HCurl]:
             return all(self._orders[i] >= 1 for i in self._spatial_indices)
         elif other.name in ["HDivDiv", "HEin", "HCurlDiv"]:
             # Don't know how these spaces compare
-            return NotImplementedError(f"Don't know how to compare with {other.name}")
+            raise NotImplementedError(f"Don't know how to compare with {other.name}")
         else:
-            return any(self._orders[i] > other._order for i in self._spatial_indices)
+            return all(self._orders[i] >= other._order for i in self._spatial_indices) and any(
+                self._orders[i] > other._order for i in self._spatial_indices
+            )
 
     def __str__(self):
         """Format as a string."""
